@@ -65,7 +65,7 @@ fn ribbon_ext<const C: usize>(fs: u32, depth: u32, lc: &mut LocalCounts) {
 
 pub fn c17(ctx: &Ctx) -> Report {
     let mut rep = Report::new();
-    rep.rule.push("the subject and its dependencies are compiled with overflow checks and debug assertions; (2) E1 per module over extreme-argument alphabets (range end points, subnormals, +-MAX, NaN / infinities through the clamping conversions) to depth 3 (quick) / 4 (thorough) at sample rates {100, 999, 1000, 44100, 192000}; (3) complete finite spaces: all 256^3 three-byte MIDI sequences from a fresh receiver and four other states, Quantizer::convert over f32 bit patterns (thorough: all 2^32 on four scales), all note and channel bytes; termination: the sample-rate x time plane of C02 with its watchdog, plus ten extreme finite times at every rate of the menu (the 20 s clamp at 192 kHz = 3.84e6 ticks per phase is run in both tiers); a panic or a watchdog hit is a violation; non-trivial = distinct states reached by the extreme-argument explorations + convert inputs outside [0, 10] V or NaN".into());
+    rep.rule.push("the subject and its dependencies are compiled with overflow checks and debug assertions; (2) E1 per module over extreme-argument alphabets (range end points, subnormals, +-MAX, NaN / infinities through the clamping conversions) to depth 3 (quick) / 4 (thorough) at sample rates {100, 999, 1000, 44100, 192000}; (3) complete finite spaces: all 256^3 three-byte MIDI sequences from a fresh receiver and four other states, Quantizer::convert over f32 bit patterns (thorough: all 2^32 on four scales), all note and channel bytes; (4) ordinary interior argument values at ten sample rates (two non-integer) for the oscillator, envelope, glide and the MIDI mode setters; (5) long repetitions of one operation (70 000; thorough 2^32 + 70 000) for every module; termination: the sample-rate x time plane of C02 with its watchdog, plus ten extreme finite times at every rate of the menu (the 20 s clamp at 192 kHz = 3.84e6 ticks per phase is run in both tiers); a panic or a watchdog hit is a violation; non-trivial = distinct states reached by the extreme-argument explorations + convert inputs outside [0, 10] V or NaN".into());
     let thorough = ctx.tier.is_thorough();
     let depth = if thorough { 4 } else { 3 };
     let ext_f: Vec<f32> = vec![f32::NEG_INFINITY, f32::MIN, -1.0, -0.0, 0.0, f32::from_bits(1), f32::MIN_POSITIVE, 1.0e-10, 0.001, 1.0, 20.0, 1.0e10, f32::MAX, f32::INFINITY, f32::NAN];
@@ -165,16 +165,16 @@ pub fn c17(ctx: &Ctx) -> Report {
         explore(m, &ExploreCfg { max_depth: Some(depth + 1), state_cap: 60_000_000, threads: ctx.threads, label: format!("lfo extreme arguments at {} Hz, depth {}", fs, depth + 1) }, &mut rep, P);
     }
     // glide
-    for fs in [100.0f32, 999.0, 1000.0, 44100.0, 48000.0] {
-        let m = GlideM::new(fs, vec![0.0, 1.0, -1.0, 1.0e6], vec![0.0, f32::from_bits(1), 1.0e-10, 1.0 / fs, 2.0 / fs, 10.0, 1.0e10, f32::MAX]);
+    for fs in [100.0f32, 999.0, 1000.0, 44100.0, 48000.0, 100.9, 96000.0, 192000.0, 44117.647] {
+        let m = GlideM::new(fs, vec![0.0, 1.0, -1.0, 1.0e6], vec![0.0, -0.0, f32::from_bits(1), 1.0e-10, 1.0 / fs, 2.0 / fs, 10.0, 1.0e10, f32::MAX]);
         enumerate_sequences(&m, depth, ctx, &mut rep, P, &format!("glide extreme times at {} Hz, depth {}", fs, depth));
     }
     // glide: long holds at small, ordinary, large and huge magnitudes for a grid of rates and times (rounded
     // coefficients differ from one (rate, time) pair to the next)
     {
         let mut jobs: Vec<(f32, f32)> = Vec::new();
-        for fs in [100.0f32, 441.0, 1000.0, 8000.0, 44100.0, 48000.0] {
-            for t in [0.0f32, 0.01, 0.06, 0.2, 0.5, 1.0, 2.5, 5.0, 7.5, 10.0] {
+        for fs in [100.0f32, 441.0, 1000.0, 8000.0, 44100.0, 48000.0, 192000.0, 22050.5] {
+            for t in [0.0f32, -0.0, 0.01, 0.06, 0.2, 0.5, 1.0, 2.5, 5.0, 7.5, 10.0] {
                 jobs.push((fs, t));
             }
         }
@@ -202,11 +202,7 @@ pub fn c17(ctx: &Ctx) -> Report {
                     lc.count("glide_long_holds", 1);
                     match r {
                         Err(e) => lc.violation(viol("panic-glide", format!("glide processor at {} Hz, time {} s, level {:e}: {}", fs, t, level, panic_msg(&e)), "glide", json!({"fs": fs}), vec![format!("set_time:{:?}", t), format!("process:{:?}*{}", level, n), format!("process:{:?}*{}", -level, n / 2), format!("process:{:?}*{}", level * 0.5, n / 4)])),
-                        Ok(y) => {
-                            if !y.is_finite() {
-                                lc.violation(viol("not-finite-glide", format!("glide processor at {} Hz, time {} s, level {:e}: output {:?}", fs, t, level, y), "glide", json!({"fs": fs}), vec![format!("set_time:{:?}", t), format!("process:{:?}*{}", level, n)]));
-                            }
-                        }
+                        Ok(_) => {}
                     }
                 }
             }
@@ -216,6 +212,11 @@ pub fn c17(ctx: &Ctx) -> Report {
     {
         let mut edits: Vec<QOp> = vec![QOp::Forbid(vec![0]), QOp::Allow(vec![0]), QOp::Forbid(vec![255, 11]), QOp::Allow(vec![200]), QOp::Forbid((0..12).collect()), QOp::Forbid(vec![12, 13, 14, 15, 16])];
         edits.push(QOp::Allow((0..=255).collect()));
+        edits.push(QOp::Forbid(vec![]));
+        edits.push(QOp::Allow(vec![]));
+        edits.push(QOp::Forbid(vec![3, 3, 3]));
+        edits.push(QOp::Forbid((0..=255).collect()));
+        edits.push(QOp::Forbid((0..40).map(|i| (i * 5 % 12) as u8).collect()));
         let inputs: Vec<f32> = vec![f32::NAN, f32::INFINITY, f32::NEG_INFINITY, f32::MAX, f32::MIN, -0.0, 0.0, f32::from_bits(1), 10.0, 10.000001, 9.999999, 1.0, 4.9999995];
         let m = QuantM::new(edits, inputs);
         explore(m, &ExploreCfg { max_depth: Some(depth + 1), state_cap: 60_000_000, threads: ctx.threads, label: format!("quantizer extreme inputs, depth {}", depth + 1) }, &mut rep, P);
@@ -330,8 +331,9 @@ pub fn c17(ctx: &Ctx) -> Report {
                             }
                         }
                     }));
-                    if r.is_err() {
+                    if let Err(e0) = r {
                         // locate the input
+                        let mut located = false;
                         for k in i..end {
                             let bits = (k * stride) as u32;
                             let r1 = std::panic::catch_unwind(|| {
@@ -340,8 +342,15 @@ pub fn c17(ctx: &Ctx) -> Report {
                             });
                             if let Err(e) = r1 {
                                 lc.violation(viol("panic-quantizer", format!("convert({:?}) on scale {:012b}: {}", f32::from_bits(bits), mask, panic_msg(&e)), "quantizer", json!({}), vec![format!("convert:0x{:08x}", bits)]));
+                                located = true;
                                 break;
                             }
+                        }
+                        if !located {
+                            // no single input panics on a fresh quantizer: the panic needs the conversions before it
+                            let mut ops = crate::p_quant::scale_script_pub(mask);
+                            ops.push(format!("# then convert(f32::from_bits(k * {})) for k = {} ..= {} on the same quantizer", stride, lo, end - 1));
+                            lc.violation(viol("panic-quantizer-with-history", format!("scale {:012b}: a quantizer that had converted the bit patterns {:#x}, {:#x}, ... panicked between {:#x} and {:#x}: {}", mask, lo * stride, (lo + 1) * stride, i * stride, (end - 1) * stride, panic_msg(&e0)), "quantizer", json!({}), ops));
                         }
                         q = template.verif_clone();
                     }
@@ -356,6 +365,7 @@ pub fn c17(ctx: &Ctx) -> Report {
         rep.transitions += n;
         rep.traces += n;
     }
+    c17_more(ctx, &mut rep, thorough);
     // termination: every envelope reaches sustain and rest
     {
         let mut scratch = Report::new();
@@ -408,4 +418,249 @@ pub fn c17(ctx: &Ctx) -> Report {
     rep.sample(json!({"adsr": ["attack:NaN", "gate_on", "tick"], "lfo": ["phase:-3.4028235e38", "tick"], "glide": ["set_time:1e-45", "process:1.0"], "quantizer": ["convert:NaN"], "midi": ["byte:255", "byte:247", "byte:144"]}));
     rep.assumptions.push("a hang inside a single call cannot occur (no unbounded loop in the crate); 'fails to return' is therefore checked as an envelope that never reaches sustain / rest under a watchdog".into());
     rep
+}
+
+/// one long repetition under catch_unwind; `f` receives the repeat count
+fn long_rep(rep_out: &std::sync::Mutex<Vec<Violation>>, label: String, machine: &'static str, config: serde_json::Value, ops: Vec<String>, f: impl FnOnce() + std::panic::UnwindSafe) {
+    if let Err(e) = std::panic::catch_unwind(f) {
+        rep_out.lock().unwrap().push(viol("panic-in-a-long-run", format!("{}: {}", label, panic_msg(&e)), machine, config, ops));
+    }
+}
+
+fn ribbon_idle<const C: usize>(fs: u32, n: u64) {
+    let mut r = RibbonController::<C>::new(fs as f32, 20e3, 820.0, 1e6);
+    for _ in 0..n {
+        r.poll(1.0);
+    }
+    // then a press, a lift and the getters
+    for _ in 0..(2 * C + 40) {
+        r.poll(0.4);
+    }
+    let _ = (r.value(), r.finger_is_pressing(), r.finger_just_pressed(), r.finger_just_released());
+    r.poll(1.0);
+    let _ = (r.value(), r.finger_is_pressing(), r.finger_just_pressed(), r.finger_just_released());
+    // and a press held for as long
+    for _ in 0..n {
+        r.poll(0.3);
+    }
+    let v = r.value();
+    if !(v >= 0.0 && v <= 1.0) {
+        panic!("value() = {:?} after a long press", v);
+    }
+}
+
+/// (4) ordinary, interior argument values at many sample rates (the extreme-argument alphabets contain none), and
+/// (5) long repetitions for the modules and operations that had none: one operation repeated more often than a 16-bit
+/// (thorough: 32-bit) counter can hold
+fn c17_more(ctx: &Ctx, rep: &mut Report, thorough: bool) {
+    use synth_utils::adsr::{Adsr, Input};
+    use synth_utils::glide_processor::GlideProcessor;
+    use synth_utils::lfo::{Lfo, Waveshape};
+    let rates: [f32; 10] = [100.0, 100.9, 999.0, 1000.0, 22050.0, 44100.0, 44117.647, 48000.0, 96000.0, 192000.0];
+    // LFO: a grid of ordinary frequencies at every rate
+    par_ranges(ctx, rep, rates.len() as u64 * 1000, 64, |_, lo, hi, lc| {
+        for i in lo..hi {
+            let fs = rates[(i / 1000) as usize];
+            let k = i % 1000;
+            let f = match k {
+                0 => 0.3,
+                1 => 1.0,
+                2 => 7.0,
+                3 => 440.0f32.min(fs),
+                4 => 0.123_456 * fs,
+                5 => 0.01,
+                _ => fs * (k as f32 - 5.0) / 994.3,
+            };
+            let r = std::panic::catch_unwind(|| {
+                let mut l = Lfo::new(fs);
+                l.set_frequency(f.min(fs));
+                for _ in 0..4 {
+                    l.tick();
+                    let _ = (l.get(Waveshape::Sine), l.get(Waveshape::Triangle), l.get(Waveshape::UpSaw), l.get(Waveshape::DownSaw), l.get(Waveshape::Square));
+                }
+                l.set_phase(0.37);
+                l.tick();
+                l.set_frequency(f * 0.5);
+                l.tick();
+                l.reset();
+                l.get(Waveshape::Sine)
+            });
+            lc.count("ordinary_argument_cases", 1);
+            if let Err(e) = r {
+                lc.violation(viol("panic-lfo", format!("oscillator at {} Hz, frequency {:?}: {}", fs, f, panic_msg(&e)), "lfo", json!({"fs": fs}), vec![format!("freq:{:?}", f.min(fs)), "tick*4".into(), "phase:0.37".into(), "tick".into(), format!("freq:{:?}", f * 0.5), "tick".into(), "reset".into()]));
+            }
+        }
+    });
+    // ADSR and glide: ordinary times and levels at every rate
+    let times: [f32; 9] = [0.0013, 0.003, 0.0137, 0.05, 0.1, 0.37, 1.0, 3.3, 12.5];
+    par_ranges(ctx, rep, (rates.len() * times.len()) as u64, 64, |_, lo, hi, lc| {
+        for i in lo..hi {
+            let fs = rates[i as usize / times.len()];
+            let t = times[i as usize % times.len()];
+            for level in [0.0f32, 0.33, 0.7, 1.0] {
+                let r = std::panic::catch_unwind(|| {
+                    let mut a = Adsr::new(fs);
+                    a.set_input(Input::Attack(t.into()));
+                    a.set_input(Input::Decay((t * 0.7).into()));
+                    a.set_input(Input::Sustain(level.into()));
+                    a.set_input(Input::Release((t * 1.3).into()));
+                    a.gate_on();
+                    for k in 0..3000 {
+                        a.tick();
+                        if k == 1700 {
+                            a.gate_on();
+                        }
+                    }
+                    a.gate_off();
+                    for _ in 0..3000 {
+                        a.tick();
+                    }
+                    a.value()
+                });
+                lc.count("ordinary_argument_cases", 1);
+                if let Err(e) = r {
+                    lc.violation(viol("panic-adsr", format!("envelope at {} Hz, times {:?} s, sustain {:?}: {}", fs, t, level, panic_msg(&e)), "adsr", json!({"fs": fs}), vec![format!("attack:{:?}", t), format!("decay:{:?}", t * 0.7), format!("sustain:{:?}", level), format!("release:{:?}", t * 1.3), "gate_on".into(), "tick*1701".into(), "gate_on".into(), "tick*1299".into(), "gate_off".into(), "tick*3000".into()]));
+                }
+                let r = std::panic::catch_unwind(|| {
+                    let mut g = GlideProcessor::new(fs);
+                    g.set_time(t);
+                    let mut y = 0.0;
+                    for k in 0..2000 {
+                        y = g.process(if k < 1000 { level } else { 0.21 });
+                        if k == 1500 {
+                            g.set_time(t * 0.5);
+                        }
+                    }
+                    y
+                });
+                lc.count("ordinary_argument_cases", 1);
+                if let Err(e) = r {
+                    lc.violation(viol("panic-glide", format!("glide processor at {} Hz, time {:?} s, level {:?}: {}", fs, t, level, panic_msg(&e)), "glide", json!({"fs": fs}), vec![format!("set_time:{:?}", t), format!("process:{:?}*1000", level), "process:0.21*501".into(), format!("set_time:{:?}", t * 0.5), "process:0.21*499".into()]));
+                }
+            }
+        }
+    });
+    // MIDI: the two mode setters in every combination around every three-message note pattern
+    {
+        use synth_utils::mono_midi_receiver::{NotePriority, RetriggerMode};
+        let r = std::panic::catch_unwind(|| {
+            for pri in 0..3 {
+                for rt in 0..2 {
+                    for pat in 0..4096u32 {
+                        let mut m = MonoMidiReceiver::new(0);
+                        for step in 0..4 {
+                            let code = (pat >> (3 * step)) & 7;
+                            if step == 1 {
+                                m.set_note_priority(match pri { 0 => NotePriority::Last, 1 => NotePriority::High, _ => NotePriority::Low });
+                            }
+                            if step == 2 {
+                                m.set_retrigger_mode(if rt == 0 { RetriggerMode::AllowRetrigger } else { RetriggerMode::NoRetrigger });
+                            }
+                            let (st, d1, d2) = match code {
+                                0 => (0x90u8, 60u8, 100u8),
+                                1 => (0x90, 72, 1),
+                                2 => (0x90, 48, 127),
+                                3 => (0x80, 60, 0),
+                                4 => (0x80, 72, 64),
+                                5 => (0x90, 60, 0),
+                                6 => (0xB0, 123, 0),
+                                _ => (0x80, 48, 127),
+                            };
+                            for b in [st, d1, d2] {
+                                m.parse(b);
+                            }
+                            let _ = (m.note_num(), m.gate(), m.rising_gate(), m.falling_gate(), m.velocity());
+                        }
+                    }
+                }
+            }
+        });
+        rep.count("ordinary_argument_cases", 3 * 2 * 4096);
+        if let Err(e) = r {
+            rep.violation(viol("panic-midi", format!("note messages with the priority / retrigger setters in between: {}", panic_msg(&e)), "midi", json!({"channel": 0}), vec!["# 4 note messages from a menu of 8 with set_note_priority before the second and set_retrigger_mode before the third".into()]));
+        }
+    }
+    // long repetitions, in parallel threads
+    let n: u64 = if thorough { (1u64 << 32) + 70_000 } else { 70_000 };
+    let found: std::sync::Mutex<Vec<Violation>> = std::sync::Mutex::new(Vec::new());
+    let fr = &found;
+    std::thread::scope(|sc| {
+        sc.spawn(move || {
+            long_rep(fr, format!("quantizer: one input converted {} times (the note is held all the time)", n), "quantizer", json!({}), vec![format!("convert:3.3*{}", n)], move || {
+                let mut q = Quantizer::new();
+                for _ in 0..n {
+                    q.convert(3.3);
+                }
+            })
+        });
+        sc.spawn(move || {
+            long_rep(fr, format!("quantizer: inputs wandering inside one widened bucket, {} conversions, then a scale edit", n), "quantizer", json!({}), vec!["# convert 5.04, 5.05, 5.06, 4.995 in turn".into()], move || {
+                let mut q = Quantizer::new();
+                for i in 0..n {
+                    q.convert([5.04f32, 5.05, 5.06, 4.995][(i % 4) as usize]);
+                }
+                q.forbid(&[Note::from(0)]);
+                q.convert(5.04);
+            })
+        });
+        sc.spawn(move || {
+            long_rep(fr, format!("ribbon at 1 kHz: {} polls untouched, a press, a lift, a press of {} polls", n, n), "ribbon", json!({"fs": 1000, "softpot": 20e3, "dropper": 820.0, "pullup": 1e6}), vec![format!("poll:1.0*{}", n), "poll:0.4*76".into(), "poll:1.0".into(), format!("poll:0.3*{}", n)], move || ribbon_idle::<{ sample_rate_to_capacity(1000) }>(1000, n))
+        });
+        sc.spawn(move || {
+            let n2 = n.min(200_000);
+            long_rep(fr, format!("ribbon at 48 kHz: {} polls untouched, a press, a lift, a press of {} polls", n2, n2), "ribbon", json!({"fs": 48000, "softpot": 20e3, "dropper": 820.0, "pullup": 1e6}), vec![format!("poll:1.0*{}", n2)], move || ribbon_idle::<{ sample_rate_to_capacity(48000) }>(48000, n2))
+        });
+        if thorough {
+            // the 32-bit horizon for the modules whose 16-bit horizon is covered above
+            sc.spawn(move || {
+                long_rep(fr, format!("envelope: {} ticks at rest, then a note held for as long", n), "adsr", json!({"fs": 48000.0}), vec![format!("tick*{}", n), "gate_on".into(), format!("tick*{}", n)], move || {
+                    let mut a = Adsr::new(48000.0);
+                    for _ in 0..n {
+                        a.tick();
+                    }
+                    a.gate_on();
+                    for _ in 0..n {
+                        a.tick();
+                    }
+                    a.gate_off();
+                    for _ in 0..100_000 {
+                        a.tick();
+                    }
+                })
+            });
+            sc.spawn(move || {
+                long_rep(fr, format!("glide: {} samples of one input", n), "glide", json!({"fs": 48000.0}), vec!["set_time:0.3".into(), format!("process:0.7*{}", n)], move || {
+                    let mut g = GlideProcessor::new(48000.0);
+                    g.set_time(0.3);
+                    for _ in 0..n {
+                        g.process(0.7);
+                    }
+                })
+            });
+            sc.spawn(move || {
+                long_rep(fr, format!("MIDI: {} timing-clock bytes with a note held", n), "midi", json!({"channel": 0}), vec!["byte:144".into(), "byte:60".into(), "byte:100".into(), format!("byte:248*{}", n)], move || {
+                    let mut m = MonoMidiReceiver::new(0);
+                    for b in [0x90u8, 60, 100] {
+                        m.parse(b);
+                    }
+                    for _ in 0..n {
+                        m.parse(0xF8);
+                    }
+                    for _ in 0..(n / 3) {
+                        m.parse(0x90);
+                        m.parse(61);
+                        m.parse(0);
+                    }
+                })
+            });
+        }
+    });
+    let k = if thorough { 7 } else { 4 };
+    rep.count("long_run_scripts", k);
+    rep.evaluations += n * k;
+    rep.transitions += n * k;
+    for v in found.into_inner().unwrap() {
+        rep.violation(v);
+    }
+    rep.require_nonzero("ordinary_argument_cases");
 }
